@@ -30,6 +30,9 @@ var c11handlers = map[*slog.Entry]stdslog.Handler{}
 
 var c11noColours bool
 
+// c11noColorSwitch: the process runs with is.SetNoColorMode(true)
+var c11noColorSwitch bool
+
 // failingW reports an error for everything it is handed.
 type failingW struct{}
 
@@ -200,7 +203,13 @@ func classify(p []byte, dumpAllowed bool) (Format, bool) {
 	case bytes.HasPrefix(p, []byte("time=")):
 		return FLogfmt, whole && !esc && (oneLine || dumpAllowed)
 	case esc:
-		return FColor, whole
+		return FColor, whole && !c11noColorSwitch
+	case c11noColorSwitch:
+		// with the application's no-color switch on, the colored-text format is its LAYOUT without escape sequences:
+		// "<timestamp>| [<logger> ]\[<TAG>\] <message> ..."
+		i := bytes.Index(p, []byte("| "))
+		j := bytes.Index(p, []byte("] "))
+		return FColor, whole && i > 0 && j > i && bytes.IndexByte(p[i:j], '[') > 0
 	}
 	return 0, false
 }
@@ -337,6 +346,7 @@ func c11random(c *Ctx) {
 	if c.X("nocolormode", "") == "1" {
 		// the application's process-wide "--no-color" switch (hedzr/is) is on: the format is decided by mode calls
 		is.SetNoColorMode(true)
+		c11noColorSwitch = true
 		c.R.Add("processes_with_the_no_color_switch_on", 1)
 	}
 	c.Each(func(idx int, r *gen.R) {
